@@ -119,6 +119,8 @@ mod error;
 pub mod generators;
 pub mod interface;
 pub mod models;
+#[cfg(feature = "verif-hooks")]
+pub mod verif_hooks;
 
 pub use error::{Error, Result};
 pub use models::*;
